@@ -39,7 +39,13 @@ func genCronSys(r *rand.Rand, n int, tier string) []Case {
 		var ops []interface{}
 		for j := 0; j < 3+r.Intn(5); j++ {
 			o := map[string]interface{}{"loc": locs[r.Intn(k)], "id": ids[r.Intn(len(ids))]}
-			switch r.Intn(6) {
+			switch r.Intn(7) {
+			case 6:
+				// a schedule string of unusual shape (far in the future when it is accepted at all): an error
+				// or an accepted rule that does not run within the case - never a panic, and a refused
+				// overwrite leaves the stored rule and its job as they were
+				o["op"] = "addfar"
+				o["schedule"] = pick(r, "+1h?once", "+1h?a=b", "+1h?", "+1h?a=b&&c=d", "+1h?a=%zz", "+2h?x", "?", "+1h?=", "+1h?a=b&c").(string)
 			case 0:
 				o["op"] = "remrule"
 			case 1:
@@ -146,6 +152,10 @@ func execCronSysCase(c Case) {
 		switch str(o["op"]) {
 		case "addsched":
 			rule := map[string]interface{}{"schedule": fmt.Sprintf("+%dms", num(o["delay_ms"])), "action": action}
+			js, _ := json.Marshal(rule)
+			_, err = s.AddRule(newctx(), loc, id, string(js))
+		case "addfar":
+			rule := map[string]interface{}{"schedule": str(o["schedule"]), "action": action}
 			js, _ := json.Marshal(rule)
 			_, err = s.AddRule(newctx(), loc, id, string(js))
 		case "addplain":
